@@ -67,4 +67,20 @@ theorem fork_flags_on_path :
       "IsSub", "LocalChainConfig.Proposal004Block", "LocalChainConfig.Proposal010Block", "LocalChainConfig.Proposal011Block",
       "LocalChainConfig.Proposal019Block"] := by decide
 
+/-- The "refund more than the stake" guard is the unsigned comparison `miner.Stake < money` and what stays locked is
+    the unsigned difference `miner.Stake - money` (`execRefund`: `m.stake < refundMoney …`, `m.stake - money` on `Nat`
+    below 2^64 — no signed detour on which amounts above 2^63 change sign). -/
+theorem refund_guard_as_modelled :
+    Generated.C20.refundGuard = ["miner.Stake < money"] ∧ Generated.C20.refundLeft = ["left := miner.Stake - money"] := by decide
+
+/-- Every numeric type conversion in the arithmetic of miner_manager.go / refund_manager.go: the two `float64(stake)`
+    debits the model has as `f64`, literal/length widenings to `uint64`, and the group count of the pre-Proposal012
+    refund height. A new narrowing or sign-changing conversion (e.g. `int64(miner.Stake)`) breaks this fact. -/
+theorem numeric_conversions_as_modelled :
+    Generated.C20.numericConversions =
+      ["miner_manager.go:AddMiner:float64(miner.Stake)", "miner_manager.go:AddStake:float64(delta)",
+       "miner_manager.go:GetProposerTotalStake:uint64(…)", "miner_manager.go:GetProposerTotalStakeWithDetail:uint64(…)",
+       "miner_manager.go:GetValidatorsStake:uint64(…)", "refund_manager.go:getRefundHeight:int(…)",
+       "refund_manager.go:getRefundHeight:uint64(…)"] := by decide
+
 end Rangers.Props.C20Facts
